@@ -1,4 +1,4 @@
-(* C32 obligation: kronecker(a, n), jacobi(a, n) for odd positive n and legendre(a, p) for odd primes p equal the symbols defined from squares modulo primes, (a|2), (a|-1), (a|0), for all |a|, |n| <= 40, in both configurations (the boost one throws for n = 0) (complete evaluation) *)
+(* C32 obligation: kronecker(a, n), jacobi(a, n) for odd positive n and legendre(a, p) for odd primes p equal the symbols defined from squares modulo primes, (a|2), (a|-1), (a|0), for all |a|, |n| <= 40, in both configurations (complete evaluation) *)
 From SE Require Import C32.NtBrute C32.NtBounded.
 Local Open Scope Z_scope.
 Theorem C32_kronecker_bounded :
